@@ -5,6 +5,7 @@ import legs
 CT = {"tspec": "ChmuxTrace.tla", "tcfg": "ChmuxTrace.cfg"}
 PT = {"tspec": "ChmuxPeerTrace.tla", "tcfg": "ChmuxPeerTrace.cfg"}
 RT = {"tspec": "RobsTrace.tla", "tcfg": "RobsTrace.cfg"}
+TT = {"tspec": "TypedTrace.tla", "tcfg": "TypedTrace.cfg"}
 SIM = ["-simulate", "num={N}", "-depth", "8", "-seed", "{SEED}"]
 
 
@@ -79,6 +80,8 @@ CHECKS = {
             data_leg("data_ports", (80, 2000), {"cancel": 1, "ports": 1, "sends": 10}, nontrivial=[r'"kind":"connect"']),
             data_leg("data_bp", (120, 3000), {"cancel": 1, "ports": 1, "bp": 1}, require={r'"ev":"backpressure"': 100},
                      nontrivial=[r'"ev":"backpressure"', r'"ev":"api_cancel"']),
+            dict(CT, kind="trace", name="ret_cancel", workload="ret_cancel", n=(60, 1000), opts={}, require={r'"kind":"close"': 50, r'"ev":"api_cancel"': 50},
+                 nontrivial=[r'"ev":"api_cancel"', r'"kind":"close"']),
             dict(CT, kind="trace", name="block", workload="block", n=(60, 1500), opts={}, require={r'"ev":"quiescent"': 50},
                  nontrivial=[r'"kind":"connect"|"kind":"send"']),
         ],
@@ -128,6 +131,11 @@ CHECKS = {
                                                                           r'"err":"closed_dropped"': 10, r'"res":"none"': 30,
                                                                           r'"kind":"closed"': 30},
                      nontrivial=[r'"kind":"close"|"what":"receiver"', r'"kind":"send"']),
+            dict(TT, kind="trace", name="typed_mpsc_close", workload="typed_mpsc", n=(200, 3000), opts={}, require={r'"ev":"t_close"': 30},
+                 nontrivial=[r'"ev":"t_close"']),
+            # a sender that keeps its local queue non-empty while the receiver closes: the close must become observable
+            dict(TT, kind="trace", name="typed_mpsc_flood", workload="typed_mpsc", n=(100, 1500), opts={"flood": 1}, require={r'"ev":"t_close"': 80, r'"ev":"t_flood_done"': 80},
+                 nontrivial=[r'"ev":"t_close"']),
             life_leg("life_override", (120, 3000), {"connects": 3, "calm": 1, "cancel": 0}, require={r'"override":true': 50, r'"kind":"close"': 30},
                      nontrivial=[r'"override":true', r'"kind":"close"']),
         ],
@@ -246,6 +254,30 @@ CHECKS = {
                  require={r'"remote":true': 50}, nontrivial=[r'"r":"lagged"']),
             dict(kind="trace", name="bcast_cut", workload="bcast", n=(60, 1000), opts={"remote": 1, "cut": 1}, tspec="BcastTrace.tla", tcfg="BcastTrace.cfg",
                  require={r'"ev":"fault"': 20}, nontrivial=[r'"ev":"fault"']),
+        ],
+    },
+    "C04": {
+        "rule": "seeded typed-channel scenarios over a real connection with max_data_size 64/128: items of 0..3x max_data bytes (buffered and streamed "
+                "through the helper thread), serialization failing after 1 byte or before the last byte, items over max_item_size, sends cancelled after "
+                "1..8 polls, base channel and mpsc with 1-2 senders and local queue 1-4, receiver close, connection cut; distinct = distinct event sequences; "
+                "non-trivial = contains a failing or cancelled item followed by a successful one",
+        "assumptions": ["payload of item (id,len) is a deterministic byte pattern; equality is checked on the receiver and logged",
+                        "streamed (de)serialization threads get a real-time grace period before a hang verdict"],
+        "legs": [
+            model("ChmuxData_MC_small.cfg", min_states=100000),
+            model("ChmuxData_DevF1.cfg", expect_violation="C01_Prefix"),
+            dict(TT, kind="trace", name="typed_base", workload="typed_base", n=(250, 4000), opts={}, require={r'"mode":"Cancel': 50, r'"mode":"Poison': 50, r'"mode":"Over"': 20},
+                 nontrivial=[r'"res":"(err|cancel)"', r'"r":"item"']),
+            dict(TT, kind="trace", name="typed_mpsc", workload="typed_mpsc", n=(250, 4000), opts={}, require={r'"ev":"t_sending"': 500, r'"mode":"Poison': 50},
+                 nontrivial=[r'"mode":"Poison', r'"r":"item"']),
+            dict(TT, kind="trace", name="typed_base_cut", workload="typed_base", n=(60, 1000), opts={"cut": 1}, require={r'"ev":"fault"': 50}, nontrivial=[r'"ev":"fault"']),
+            dict(TT, kind="trace", name="typed_mpsc_cut", workload="typed_mpsc", n=(60, 1000), opts={"cut": 1}, require={r'"ev":"fault"': 50}, nontrivial=[r'"ev":"fault"']),
+            # long streamed items, slow deserializer thread, recv abandoned while the chunk queue is full
+            dict(TT, kind="trace", name="typed_base_slow", workload="typed_base", n=(80, 800), opts={"variant": 1}, require={r'"ev":"t_recv_cancel"': 100},
+                 nontrivial=[r'"ev":"t_recv_cancel"', r'"r":"item"']),
+            # send of an item with an embedded channel abandoned between its data and its port message
+            dict(TT, kind="trace", name="typed_base_portabort", workload="typed_base", n=(160, 2000), opts={"variant": 2}, require={r'"id":1,"res":"cancel"': 100},
+                 nontrivial=[r'"res":"cancel"', r'"r":"item"']),
         ],
     },
 }
